@@ -107,3 +107,109 @@ Qed.
 
 Lemma write_out_St v mid m s : write_out (St v mid m) s = St (write_out v s) mid m.
 Proof. reflexivity. Qed.
+
+(* ---- TOA, ATON ---- *)
+Lemma step_toa v mid m r rr instr k0 k1 k2 a0 a1 a2 :
+  at_ip v r mid instr ->
+  decode instr = {| f_op := TOA; f_k0 := k0; f_k1 := k1; f_k2 := k2; f_a0 := a0; f_a1 := a1; f_a2 := a2 |} ->
+  step (St v mid m) r rr =
+  lift (p0 <~ fetch (St v mid m) mid k0 a0 ;; let (v0, x0) := p0 in
+        v1 <~ vPush v0 mid (VStr (to_string fmt_float x0)) ;; Good (next v1 r)).
+Proof.
+  intros [Hi Hc] Hd. unfold decode in Hd. injection Hd as Eop E0 E1 E2 Ea0 Ea1 Ea2.
+  unfold step. change (v_cs (St v mid m)) with (v_cs v). rewrite Hi. cbn [req obind].
+  rewrite cur_mid_St, Hc. cbn [obind]. rewrite Eop, E0, Ea0. reflexivity.
+Qed.
+
+Lemma step_aton v mid m r rr instr k0 k1 k2 a0 a1 a2 :
+  at_ip v r mid instr ->
+  decode instr = {| f_op := ATON; f_k0 := k0; f_k1 := k1; f_k2 := k2; f_a0 := a0; f_a1 := a1; f_a2 := a2 |} ->
+  step (St v mid m) r rr =
+  lift (p0 <~ fetch (St v mid m) mid k0 a0 ;; let (v0, x0) := p0 in
+        match x0 with
+        | VStr s =>
+            match atoi s with
+            | Some i => v1 <~ vPush v0 mid (VInt i) ;; Good (next v1 r)
+            | None =>
+                match parse_float s with
+                | PFOk f => v1 <~ vPush v0 mid (VFloat f) ;; Good (next v1 r)
+                | _ => Good (SErr v0 (r_ctx r) (r_ip r) ErrConversion [x0])
+                end
+            end
+        | _ => Good (SErr v0 (r_ctx r) (r_ip r) ErrType [x0])
+        end).
+Proof.
+  intros [Hi Hc] Hd. unfold decode in Hd. injection Hd as Eop E0 E1 E2 Ea0 Ea1 Ea2.
+  unfold step. change (v_cs (St v mid m)) with (v_cs v). rewrite Hi. cbn [req obind].
+  rewrite cur_mid_St, Hc. cbn [obind]. rewrite Eop, E0, Ea0. reflexivity.
+Qed.
+
+(* ---- CALL ---- *)
+Lemma step_call v mid m r rr instr k0 k1 k2 a0 a1 a2 :
+  at_ip v r mid instr ->
+  decode instr = {| f_op := CALL; f_k0 := k0; f_k1 := k1; f_k2 := k2; f_a0 := a0; f_a1 := a1; f_a2 := a2 |} ->
+  step (St v mid m) r rr =
+  lift (p0 <~ fetch (St v mid m) mid k0 a0 ;; let (v0, f) := p0 in
+        match f with
+        | VFun morph fid =>
+            if negb (fn_params morph =? a1) then Good (SErr v0 (r_ctx r) (r_ip r) ErrArity [f])
+            else
+              fr <~ req (assoc_get (v_frames v0) fid) "nil closure frame pointer" ;;
+              let (v1, ser) := bump v0 in
+              m0 <~ get_mem v1 mid ;;
+              pm <~ mPushFrame m0 a1 (fn_locals morph) ser ;;
+              let (m1, g1) := pm in
+              let m2 := {| m_sp := m_sp m1; m_fp := m_fp m1; m_clos := m_clos m1 ++ [fr]; m_stack := m_stack m1;
+                           m_serials := m_serials m1; m_cap := m_cap m1; m_gen := m_gen m1 |} in
+              v2 <~ vPush (set_mem v1 mid m2 g1) mid (VInt (r_ip r)) ;;
+              Good (next v2 (with_ip r (fn_node morph - 1)))
+        | _ => Good (SErr v0 (r_ctx r) (r_ip r) ErrType [f])
+        end).
+Proof.
+  intros [Hi Hc] Hd. unfold decode in Hd. injection Hd as Eop E0 E1 E2 Ea0 Ea1 Ea2.
+  unfold step. change (v_cs (St v mid m)) with (v_cs v). rewrite Hi. cbn [req obind].
+  rewrite cur_mid_St, Hc. cbn [obind]. rewrite Eop, E0, Ea0, Ea1. reflexivity.
+Qed.
+
+(* ---- RET inside a call, returning a value that is not a function ---- *)
+Lemma step_ret v mid m r rr instr k0 k1 k2 a0 a1 a2 :
+  at_ip v r mid instr ->
+  decode instr = {| f_op := RET; f_k0 := k0; f_k1 := k1; f_k2 := k2; f_a0 := a0; f_a1 := a1; f_a2 := a2 |} ->
+  step (St v mid m) r rr =
+  lift (p0 <~ fetch (St v mid m) mid k0 a0 ;; let (v0, x0) := p0 in
+        pv <~ (match x0 with
+               | VFun morph fid =>
+                   match assoc_get (v_frames v0) fid with
+                   | Some fr =>
+                       let (va, owned) := frame_content v0 fr in
+                       let (vb, nfid) := add_frame va owned in
+                       Good (vb, VFun morph nfid)
+                   | None => Good (v0, x0)
+                   end
+               | _ => Good (v0, x0)
+               end) ;;
+        let (v1, val) := pv in
+        m0 <~ get_mem v1 mid ;;
+        if zlen (m_fp m0) - 1 <? 0 then
+          let m1 := with_stack m0 (m_stack m0) 0 in
+          v2 <~ (if rr then vPush (set_mem v1 mid m1 false) mid val else Good (set_mem v1 mid m1 false)) ;;
+          Good (next v2 (with_ip r (v_ncs v2 - 1)))
+        else
+          le <~ fp_at m0 (-1) ;;
+          ipv <~ stack_get m0 le ;;
+          match ipv with
+          | VInt lip =>
+              m1 <~ mPopFrame m0 ;;
+              if zlen (m_clos m1) <? 1 then Abort "PopClosure: slice bounds out of range"
+              else
+                let m2 := {| m_sp := m_sp m1; m_fp := m_fp m1; m_clos := drop_last 1 (m_clos m1); m_stack := m_stack m1;
+                             m_serials := m_serials m1; m_cap := m_cap m1; m_gen := m_gen m1 |} in
+                v2 <~ vPush (set_mem v1 mid m2 false) mid val ;;
+                Good (next v2 (with_ip r lip))
+          | _ => Abort "can't pop instruction pointer"
+          end).
+Proof.
+  intros [Hi Hc] Hd. unfold decode in Hd. injection Hd as Eop E0 E1 E2 Ea0 Ea1 Ea2.
+  unfold step. change (v_cs (St v mid m)) with (v_cs v). rewrite Hi. cbn [req obind].
+  rewrite cur_mid_St, Hc. cbn [obind]. rewrite Eop, E0, Ea0. reflexivity.
+Qed.
